@@ -101,13 +101,19 @@ class flock:
 
 
 def prune_build(keep_hash):
-    """Keep disk use bounded: drop build caches of other source hashes."""
+    """Keep disk use bounded: drop the oldest build caches of other source hashes (the three most
+    recent ones are kept so that alternating between trees does not thrash)."""
     libroot = os.path.join(BUILD, "lib")
     if not os.path.isdir(libroot):
         return
-    for d in os.listdir(libroot):
-        if d != keep_hash and not d.endswith(".lock"):
-            shutil.rmtree(os.path.join(libroot, d), ignore_errors=True)
+    dirs = [d for d in os.listdir(libroot) if not d.endswith(".lock") and d != keep_hash and os.path.isdir(os.path.join(libroot, d))]
+    dirs.sort(key=lambda d: os.path.getmtime(os.path.join(libroot, d)), reverse=True)
+    for d in dirs[3:]:
+        shutil.rmtree(os.path.join(libroot, d), ignore_errors=True)
+        try:
+            os.remove(os.path.join(libroot, d + ".lock"))
+        except OSError:
+            pass
 
 
 def gen_config_header(dst_dir, nodep):
@@ -198,6 +204,10 @@ def driver_build(srcs, variant, extra_flags=(), name=None):
             for o in objs:
                 if os.path.exists(o):
                     os.remove(o)
+            if "probe.cc" in errs and "-DVERIF_NO_PROBE" not in extra_flags and any(s.endswith("probe.cc") for s in srcs):
+                # the -Dprivate=public probe no longer compiles against this tree: switch probes off
+                log("probe.cc does not compile against the working tree: probes switched off")
+                return driver_build(srcs, variant, tuple(extra_flags) + ("-DVERIF_NO_PROBE",), name)
             return None, errs
         cmd = [cxx] + flags + objs + [os.path.join(libdir, "libsigc.a"), "-o", exe + ".tmp", "-pthread"]
         p = run(cmd)
